@@ -76,9 +76,12 @@ extern "C" void harness_minkowski_empty() {
 }
 
 // MinkowskiSum/Diff = NonZero union over exactly those quads (stub-and-observe on the clipper)
-struct Rec { int n_add, n_exec; size_t add_n; int add_type; bool add_open; int ct, fr; int64_t first_x; };
+struct Rec { int n_add, n_exec; size_t add_n; int add_type; bool add_open; int ct, fr; int64_t first_x; bool stale; };
 static Rec R;
 extern "C" __attribute__((noinline)) void stub_addpaths(ClipperBase* self, const Paths64& paths, PathType pt, bool is_open) {
+  // the clipper handed the quads must hold nothing from an earlier call; the marker stands for the vertices the real AddPaths would keep
+  if (!self->vertex_lists_.empty() || !self->minima_list_.empty()) R.stale = true;
+  self->vertex_lists_.push_back(nullptr);
   R.n_add++; R.add_n = paths.size(); R.add_type = (int)pt; R.add_open = is_open; R.first_x = paths.size() && paths[0].size() ? paths[0][0].x : -1;
 }
 extern "C" __attribute__((noinline)) bool stub_execint(ClipperBase* self, ClipType ct, FillRule fr, bool use_polytrees) { R.ct = (int)ct; R.fr = (int)fr; R.n_exec++; return true; }
@@ -93,5 +96,9 @@ extern "C" void harness_minkowski_union() {
   VA(R.n_add == 1 && R.n_exec == 1 && R.add_n == 4 && R.add_type == (int)PathType::Subject && !R.add_open);
   VA(R.ct == (int)ClipType::Union && R.fr == (int)FillRule::NonZero);
   VA(r.size() == 1 && r[0].size() == 1 && r[0][0].x == 7);
+  // a second call on the same thread starts from a clipper that holds nothing of the first
+  Paths64 r2 = nondet_bool() ? MinkowskiSum(path, pattern, true) : MinkowskiDiff(pattern, path, true);
+  VA(!R.stale && R.n_add == 2 && R.n_exec == 2 && R.add_n == 4);
+  VA(r2.size() == 1 && r2[0].size() == 1 && r2[0][0].x == 7);
   verif_reach();
 }
